@@ -150,6 +150,20 @@ type watcher struct {
 }
 
 func startWatch(in watchIn, mats []map[string][]byte, limit int) *watcher {
+	return startWatchFn(in.RefreshMs, limit, func(i int) (map[string][]byte, error) {
+		if i >= len(in.Script) {
+			i = len(in.Script) - 1
+		}
+		st := in.Script[i]
+		if st.Err {
+			return nil, errors.New("scripted load error")
+		}
+		return copyMat(mats[st.Mat]), nil
+	})
+}
+
+// startWatchFn runs the real watch with a loader that answers its i-th invocation with step(i).
+func startWatchFn(refreshMs int, limit int, step func(i int) (map[string][]byte, error)) *watcher {
 	w := &watcher{stopCh: make(chan struct{}), done: make(chan struct{}), gid: make(chan string, 1),
 		ch: make(chan []tls.Certificate, 1), limit: limit, pubs: [][]int{}}
 	loader := func(path string) (map[string][]byte, error) {
@@ -173,14 +187,7 @@ func startWatch(in watchIn, mats []map[string][]byte, limit int) *watcher {
 			<-w.stopCh
 			runtime.Goexit()
 		}
-		if i >= len(in.Script) {
-			i = len(in.Script) - 1
-		}
-		st := in.Script[i]
-		if st.Err {
-			return nil, errors.New("scripted load error")
-		}
-		return copyMat(mats[st.Mat]), nil
+		return step(i)
 	}
 	go func() {
 		defer close(w.done)
@@ -192,7 +199,7 @@ func startWatch(in watchIn, mats []map[string][]byte, limit int) *watcher {
 		} else {
 			w.gid <- ""
 		}
-		cert.VerifWatch(w.ch, time.Duration(in.RefreshMs)*time.Millisecond, "scripted", loader)
+		cert.VerifWatch(w.ch, time.Duration(refreshMs)*time.Millisecond, "scripted", loader)
 	}()
 	return w
 }
@@ -268,7 +275,11 @@ func runWatch(raw json.RawMessage) (interface{}, error) {
 		return nil, err
 	}
 	limit := len(in.Script) + spinSlack
-	w := startWatch(in, mats, limit)
+	return observeWatch(startWatch(in, mats, limit), limit)
+}
+
+// observeWatch follows a started watcher up to its first sleep, its return, or a spin.
+func observeWatch(w *watcher, limit int) (interface{}, error) {
 	gid := <-w.gid
 	out := watchOut{}
 	deadline := time.Now().Add(20 * time.Second)
